@@ -925,6 +925,12 @@ func main() {
 	mon := res.Monitor("read-semantics",
 		"for every case: every returned / delivered message (seed, ADD/UPDATE new and old values, REMOVE old values; nil stays nil; with concurrent subscribers each under its own mask; lossy: the projection of some stored value) = independent projection of the stored message onto the mask's path set (masks whose paths exist and continue only through messages; nil = everything, empty = nothing); the stored / passed-in message deep-equals its copy taken before the read; a delivered change object is not altered after delivery (deep copy at delivery re-compared at the end); no panic for any mask; Validate rejects exactly the masks with an unknown path or a continuation through a scalar, map or repeated field")
 	g := &mt.Gen{R: lib.NewRand(f.Seed)}
+	// first of all (nothing has read through a mask in this process yet): sequences of reads
+	qtie := res.Tie("read-history", "K1",
+		"SEQUENCES of 8-10 reads executed in order, before anything else in the process has read through a mask: a valid mask V of 2-3 paths (top-level first, then nested) of TestAllTypes / AirTemperature / Brightness / ElectricMode and the ONE-path mask J whose only path is V's paths joined by one of ten separators (`,` `, ` ` ` `;` `|` `:` `+` `/` nothing, or printed as `[a b]`): J first (on another message type or the same) and then V at FilterClone, Filter, Value.Get, Collection.Get, Collection.List, on a second stored message, with the paths reversed, and (a quarter) at Value.Pull / Collection.Pull; or V first, then J at the five synchronous sites, then V on another message; the Lean model is a function of (mask, message) alone: every synchronous read whose mask the line protocol can carry against its filter; non-trivial: all; distinct by the whole sequence")
+	qmon := res.Monitor("reads-have-no-memory",
+		"for every read of every sequence, judged exactly like a single read (projection of the stored message onto the mask of THAT read, stored message unchanged, no panic, Validate rejects the one-path mask); in addition a mask whose only paths are single segments naming no field returns the empty message")
+	runHistoryCases(historyCases(g, f.N(40, 400)), qtie, qmon, drv)
 	runCases(seededCases(), tie, spec, mon, drv)
 	n := f.N(6000, 120000)
 	var cases []rcase
@@ -1027,8 +1033,12 @@ func replay(f lib.Flags) int {
 		Shared  bool      `json:"shared_container"`
 		Coll    bool      `json:"collection_read"`
 		Lossy   bool      `json:"lossy_stage"`
+		History bool      `json:"read_history"`
 	}
 	_ = json.Unmarshal(b, &probe)
+	if probe.History {
+		return replayHistory(b)
+	}
 	if probe.Reader != "" {
 		return replayComposed(b)
 	}
